@@ -74,6 +74,7 @@ FLOORS = {
     # about 40 percent of the smallest value seen on the unchanged tree over seeds 0..9 (thorough = 20 x the quick workload,
     # except the few 'large' cases whose number is fixed per tier)
     "quick": {
+        "class:integer_coordinates_with_fractional_size": 28, "expanding:class:integer_coordinates_with_fractional_sizes": 32, "expanding:class:integer_coordinates_fractional_sizes_off_lattice_centre": 27,
         "eval:rolling_window.centres": 690, "eval:rolling_window.index_form": 690, "eval:rolling_window.membership": 690,
         "eval:rolling_window.coverage": 415, "eval:expanding_window.index_form": 415,
         "eval:expanding_window.order_membership": 415, "eval:expanding_window.nesting": 415, "distinct_nontrivial": 620,
@@ -127,6 +128,7 @@ FLOORS = {
         "aliasing:unpacked_transpose_northing_first": 7, "defaulted_argument:rolling_window.adjust": 349,
     },
     "thorough": {
+        "class:integer_coordinates_with_fractional_size": 560, "expanding:class:integer_coordinates_with_fractional_sizes": 640, "expanding:class:integer_coordinates_fractional_sizes_off_lattice_centre": 540,
         "eval:rolling_window.centres": 13800, "eval:rolling_window.index_form": 13800, "eval:rolling_window.membership": 13800,
         "eval:rolling_window.coverage": 8300, "eval:expanding_window.index_form": 8300,
         "eval:expanding_window.order_membership": 8300, "eval:expanding_window.nesting": 8300, "distinct_nontrivial": 12400,
@@ -193,8 +195,8 @@ MAX_PAIRS = 1_500_000  # points x windows per call (workload keeps below; the mo
 
 def plan(tier):
     if tier == "quick":
-        return collections.OrderedDict(rolling=140, rolling_edge=50, expanding=80, expanding_edge=30, history=40, large=3)
-    return collections.OrderedDict(rolling=2800, rolling_edge=1000, expanding=1600, expanding_edge=600, history=800, large=18)
+        return collections.OrderedDict(rolling=140, rolling_edge=50, expanding=80, expanding_edge=30, history=40, integer_fractional=20, large=3)
+    return collections.OrderedDict(rolling=2800, rolling_edge=1000, expanding=1600, expanding_edge=600, history=800, integer_fractional=400, large=18)
 
 
 # ----------------------------------------------------------------------
@@ -669,6 +671,8 @@ def install(tap, run):
         if n_inside and n_outside and n_win >= 2 and (selected != selected[0:1]).any():
             run.mark_nontrivial("rolling", arrays[0], arrays[1], size, spacing, shape, region, adjust)
         run.observe_max("largest_windows_per_call", n_win)
+        if arrays[0].dtype.kind in "iu" and size != np.rint(size):
+            run.count("class:integer_coordinates_with_fractional_size")
         if n_win > 2048:
             run.count("class:more_than_2048_windows_in_one_call")
             if shape is not None:
@@ -799,6 +803,10 @@ def install(tap, run):
         if len(sizes) >= 2 and (selected != selected[0:1]).any() and n_in and n_out:
             run.mark_nontrivial("expanding", arrays[0], arrays[1], centre, sizes)
         run.observe_max("largest_expanding_window_point_count", x.size)
+        if arrays[0].dtype.kind in "iu" and any(v != np.rint(v) for v in sizes):
+            run.count("expanding:class:integer_coordinates_with_fractional_sizes")
+            if centre[0] != np.rint(centre[0]) or centre[1] != np.rint(centre[1]):
+                run.count("expanding:class:integer_coordinates_fractional_sizes_off_lattice_centre")
         if x.size >= 10_000:
             run.count("expanding:class:at_least_10000_points")
         if x.size >= 100_000:
@@ -1452,6 +1460,43 @@ def _history_case(run, vc, rng):
                                "last_rolling_kwargs": first.get("rolling"), "centres_shape": list(out[0][0].shape)})
 
 
+def _integer_fractional_case(run, vc, rng):
+    """
+    Integer-dtype coordinate arrays (int64 / int32 lattices and scatters) with window sizes that are not whole numbers and
+    centres off the integer lattice: membership is a float64 question (a radius computed in the coordinates' dtype truncates).
+    """
+    for _ in range(4):
+        dtype = str(rng.choice(["int64", "int32"]))
+        if rng.random() < 0.5:
+            m, p = int(rng.integers(5, 16)), int(rng.integers(5, 16))
+            gx, gy = np.meshgrid(np.arange(m) + int(rng.integers(-50, 50)), np.arange(p) + int(rng.integers(-50, 50)))
+            east, north = gx.ravel().astype(dtype), gy.ravel().astype(dtype)
+            if rng.random() < 0.5:
+                east, north = east.reshape(p, m), north.reshape(p, m)
+        else:
+            n_pts = int(rng.integers(20, 200))
+            east = rng.integers(-40, 40, n_pts).astype(dtype)
+            north = rng.integers(-30, 30, n_pts).astype(dtype)
+        w, e, s, n = float(east.min()), float(east.max()), float(north.min()), float(north.max())
+        # expanding windows: fractional sizes, centre off the lattice
+        centre = (round(float(rng.uniform(w, e)), 1) + 0.03, round(float(rng.uniform(s, n)), 1) + 0.07)
+        sizes = [float(v) for v in rng.choice([7.6, 3.3, 0.5, 1.5, 2.25, 11.1, 0.9, 4.0], int(rng.integers(2, 6)))]
+        coords = (east, north) + ((rng.normal(size=east.shape),) if rng.random() < 0.3 else ())
+        vc.expanding_window(coords, center=_spell_centre(rng, *centre), sizes=sizes if rng.random() < 0.6 else np.array(sizes))
+        # rolling windows: float size and spacing on the integer arrays
+        side = min(e - w, n - s)
+        if side >= 2:
+            size = float(rng.choice([0.5, 1.5, 2.3, 3.3, 0.9]))
+            size = min(size, side * 0.9)
+            kwargs = {"size": size, "spacing": float(size * rng.uniform(0.5, 1.3))}
+            if rng.random() < 0.5:
+                kwargs["region"] = [w - 0.25, e + 0.25, s - 0.4, n + 0.4]
+            if rng.random() < 0.5:
+                kwargs["adjust"] = str(rng.choice(["spacing", "region"]))
+            _call_rolling(run, vc, coords, **kwargs)
+    run.sample("integer_fractional", {"dtype": dtype, "coordinates": [east, north], "center": centre, "sizes": sizes})
+
+
 def _large_case(run, vc, rng, index):
     """Large counts judged by the membership monitors: > 2048 windows in one call, expanding windows on 1e4 / 1e5 points."""
     kind = index % 3
@@ -1513,6 +1558,8 @@ def run_case(run, tap, stream, index, rng):
     elif stream == "history":
         for _ in range(2):
             _history_case(run, vc, rng)
+    elif stream == "integer_fractional":
+        _integer_fractional_case(run, vc, rng)
     elif stream == "large":
         _large_case(run, vc, rng, index)
     else:
